@@ -38,7 +38,7 @@ TInit == /\ Init /\ l = 1 /\ first = 0 /\ nst = 0 /\ bad = {} /\ TLCSet(1, 0) /\
 
 TReset == /\ Is("reset") /\ Step /\ first' = 0 /\ nst' = 0 /\ UNCHANGED <<bad, vars>>
 TInitState == /\ Is("init") /\ first = 0 /\ Step /\ first' = l /\ nst' = 1
-              /\ Ev.lo = Ev.hi /\ Ev.nm = 0 /\ Ev.na > 0 /\ Ev.nz > 0
+              /\ Ev.lo = Ev.hi /\ Ev.nm >= 0 /\ Ev.na > 0 /\ Ev.nz > 0
               /\ UNCHANGED <<bad, vars>>
 (* a transfer: the state it produced is Apply of the previous one; indexes grow *)
 TWrite == /\ Is("w") /\ first > 0 /\ l = first + nst /\ Step /\ nst' = nst + 1
@@ -60,7 +60,7 @@ TBackup ==
          cont == ContOf(Ev)
      IN bad' = IF ~ok THEN bad                                      \* an error is always allowed
                ELSE IF ~Ev.restored THEN Flag(bad, FALSE, "unrestorable")
-               ELSE IF ~CompleteP(cont, H(1).obj) THEN Flag(bad, FALSE, "incomplete")
+               ELSE IF ~CompleteP(cont, H(1)) THEN Flag(bad, FALSE, "incomplete")
                ELSE IF ~SomeState(H, nst, cont) THEN Flag(bad, FALSE, "inconsistent")
                ELSE IF Ev.moved THEN bad                             \* leadership moved: the window was read from another node
                ELSE Flag(bad, ConsistentP(H, nst, Ev.start, Ev.end, cont), "not-in-window")
